@@ -220,6 +220,9 @@ func driveEnc(args map[string]string) error {
 		return err
 	}
 	seed, n, mode := uint64(argInt(args, "seed", 1)), argInt(args, "n", 1000), argStr(args, "mode", "c06")
+	if mode == "deep" {
+		return driveEncDeep(out, argStr(args, "prop", "C20"), argInt(args, "stride", 1))
+	}
 	var wg sync.WaitGroup
 	var ncalls, nfaults, nrej atomic.Int64
 	workers := runtime.NumCPU()
@@ -279,3 +282,56 @@ func driveEnc(args map[string]string) error {
 func init() { commands["drive-enc"] = driveEnc }
 
 var _ = fmt.Sprint
+
+// driveEncDeep: programs around the depth limit: the depth is reached by tokens, by one raw
+// value, or split between both; innermost containers empty and non-empty, arrays and objects.
+func driveEncDeep(out *sink, prop string, stride int) error {
+	id, seq := 0, 0
+	mk := func(k, b string) encCall { return encCall{Op: "tok", K: k, B: ints([]byte(b))} }
+	rawv := func(b []byte) encCall { return encCall{Op: "val", K: "", B: ints(b)} }
+	f := fmtOpts{Indent: []int{-1}, Prefix: []int{}, SAC: -1, SACM: -1}
+	emit := func(calls []encCall) {
+		seq++
+		if (seq-1)%stride != 0 {
+			return
+		}
+		id++
+		rec := encCase{ID: id, Prop: prop, F: f, Writer: "buffer", Outcomes: []int{}, Calls: calls}
+		steps, del := encExec(rec.F, rec.Writer, rec.Outcomes, rec.Calls)
+		rec.Calls = rec.Calls[:len(steps)]
+		rec.Steps, rec.Delivered = steps, ints(del)
+		out.put(rec)
+	}
+	open := func(k int, object bool) []encCall {
+		var c []encCall
+		for i := 0; i < k; i++ {
+			if object {
+				c = append(c, mk("{", ""), mk("str", "a"))
+			} else {
+				c = append(c, mk("[", ""))
+			}
+		}
+		return c
+	}
+	arr := func(i int) bool { return false }
+	obj := func(i int) bool { return true }
+	for _, d := range []int{10000, 10001} {
+		for _, k := range []int{0, 1, 9999, 10000} { // k levels by tokens, d-k levels inside one raw value
+			if d-k < 1 {
+				continue
+			}
+			for _, object := range []bool{false, true} {
+				inner := []func(int) bool{arr, obj, func(i int) bool { return i == d-k-1 }}
+				for _, pat := range inner {
+					calls := append(open(k, object), rawv(nested(d-k, pat, "")), mk("null", ""))
+					emit(calls)
+				}
+				emit(append(open(k, object), rawv(nested(d-k, arr, "0"))))
+			}
+		}
+		emit(append(open(d, false), mk("null", ""), mk("]", "")))
+		emit(append(open(d, true), mk("null", ""), mk("}", "")))
+	}
+	summary(map[string]any{"cases": id, "calls": 0, "write_faults": 0, "rejected_calls": 1})
+	return nil
+}
